@@ -278,6 +278,11 @@ func verifyServerExtensions(copts *compressionOptions, h http.Header) (*compress
 
 	_copts := *copts
 	copts = &_copts
+	// Whether the server keeps its compression context between messages is what
+	// its response says, not what we asked for: a server that does not agree to
+	// server_no_context_takeover refers back into previous messages, so the window
+	// must be kept. (We remain free not to use context takeover on our own side.)
+	copts.serverNoContextTakeover = false
 
 	for _, p := range ext.params {
 		switch p {
